@@ -570,7 +570,32 @@ def generate(rng, tier):
                 op['comments'] = ['c%d' % rng.randrange(100), 'second line']
                 scn['has_comments'] = True
         style = rng.choice(['none', 'explicit', 'explicit', 'rate', 'rate'])
-        if style == 'explicit':
+        if rng.random() < 0.08:
+            # a store that fails and is then repeated with the very same text on the same writer object, while the
+            # destination holds another text of exactly the same length (a regenerated module in which only a
+            # fixed-width field differs)
+            sz = rng.choice([37, 150, 5000, 70000])
+            nm = names[0]
+            scn['dest'] = 'populated'
+            scn['prior'] = {nm: {'size': sz, 'kind': 'ascii'}}
+            scn.pop('blockdir', None)
+            scn['persistent_writer'] = True
+            first = [{'name': nm, 'size': sz, 'kind': 'ascii'}] if rng.random() < 0.5 else []
+            k = len(first)
+            scn['ops'] = first + [{'name': nm, 'size': sz, 'kind': 'ascii'}, {'name': nm, 'size': sz, 'kind': 'ascii', 'same_as': k + 0}]
+            scn['ops'][-1]['same_as'] = k
+            scn.pop('has_comments', None)
+            style = 'explicit-op%d' % k
+        if style.startswith('explicit-op'):
+            k = int(style[len('explicit-op'):])
+            pts = [p for p in run(scn)['points'] if p[0] == k]
+            if pts:
+                op, site, nth, _s = rng.choice(pts)
+                acts = [a for a in core.SITE_ACTIONS.get(site, []) if a[0] not in ('vanish',)]
+                if acts:
+                    a, arg = rng.choice(acts)
+                    scn['faults'] = [{'op': op, 'site': site, 'nth': nth, 'action': a, 'arg': arg}]
+        elif style == 'explicit':
             # draw fault points from the fault-free run of this very scenario
             pts = [p for p in run(scn)['points']]
             faults = []
